@@ -31,6 +31,10 @@
 (*   "EOFNotDelim"   the marker at the very end of the content is not      *)
 (*                   recognised (PSEOF inside the matcher): the image and  *)
 (*                   everything behind it is lost                          *)
+(*   "BareNameNoFilter" /F /A85 (a name, not an array) is taken for "no    *)
+(*                   filter": the ASCII85 end marker ~> is not used and    *)
+(*                   ASCII85 text holding EI + white space is cut there    *)
+(*                   (not in the code; a seeded change)                    *)
 (*   "CumulativeBufpos" token positions are accumulated over the streams   *)
 (*                   of a /Contents array instead of restarting with each  *)
 (*                   stream: seek(pos + 3) lands sum(len(earlier streams)) *)
@@ -59,13 +63,15 @@ EI == <<69, 73>>
 A85END == <<126, 62>>
 PreBase == <<66, 73, 32, 47, 87, 32, 49, 32, 47, 72, 32, 49, 32, 47, 66, 80, 67, 32, 56, 32, 47, 67, 83, 32, 47, 71>>   \* BI /W 1 /H 1 /BPC 8 /CS /G
 FPart(dk) == CASE dk = "none" -> <<>>
+               [] dk = "A85Arr" -> <<32, 47, 70, 32, 91, 47, 65, 56, 53, 93>>                          \* /F [/A85]
+               [] dk = "AHx" -> <<32, 47, 70, 32, 47, 65, 72, 120>>                                    \* /F /AHx
                [] dk = "A85" -> <<32, 47, 70, 32, 47, 65, 56, 53>>                                   \* /F /A85
                [] dk = "ASCII85Decode" -> <<32, 47, 70, 32, 47, 65, 83, 67, 73, 73, 56, 53, 68, 101, 99, 111, 100, 101>>
                [] dk = "A85Fl" -> <<32, 47, 70, 32, 91, 47, 65, 56, 53, 32, 47, 70, 108, 93>>        \* /F [/A85 /Fl]
                [] dk = "Fl" -> <<32, 47, 70, 32, 47, 70, 108>>                                       \* /F /Fl
                [] dk = "FlA85" -> <<32, 47, 70, 32, 91, 47, 70, 108, 32, 47, 65, 56, 53, 93>>        \* /F [/Fl /A85]
 Pre(dk) == PreBase \o FPart(dk) \o <<32, 73, 68>>           \* ... ID
-IsA85Kind(dk) == dk \in {"A85", "ASCII85Decode", "A85Fl"}   \* the OUTER encoding (first filter) is ASCII85
+IsA85Kind(dk) == dk \in {"A85", "ASCII85Decode", "A85Fl", "A85Arr"}   \* the OUTER encoding (first filter) is ASCII85
 Term(dk, style) == (IF IsA85Kind(dk) THEN A85END ELSE <<>>) \o (IF style = "eol" \/ IsA85Kind(dk) THEN <<bLF>> ELSE <<>>) \o EI
 
 VARIABLES data, dk, style, foll, B, cut, dev, lead, \* the case
@@ -115,8 +121,10 @@ FilterOf(objs) == LET ks == {q \in 1..(Len(objs) \div 2) : objs[2 * q - 1].t = "
                   IF ks = {} THEN Obj("none", <<>>, <<>>) ELSE objs[2 * (CHOOSE q \in ks : \A r \in ks : r <= q)]
 FirstFilter(f) == IF f.t = "arr" THEN f.a[1] ELSE f
 A85Names == {<<65, 56, 53>>, <<65, 83, 67, 73, 73, 56, 53, 68, 101, 99, 111, 100, 101>>}
+\* (as a deviation - "BareNameNoFilter", a seeded change - a filter given as a bare name instead of an array is not seen)
 TargetOf(objs) == LET f == FilterOf(objs) IN
-                  IF f.t # "none" /\ FirstFilter(f).t = "lit" /\ FirstFilter(f).v \in A85Names THEN A85END ELSE EI
+                  IF f.t # "none" /\ ~("BareNameNoFilter" \in dev /\ f.t # "arr")
+                     /\ FirstFilter(f).t = "lit" /\ FirstFilter(f).v \in A85Names THEN A85END ELSE EI
 \* seek(pos + len(b"ID ")): pos is relative to the stream in which the ID token began
 IDTokPos == PreToks[Len(PreToks)].pos
 \* Offsets in this specification count from the beginning of the stream that holds BI: that is what fp.tell() gives the
